@@ -80,11 +80,11 @@ type DriftExample struct {
 type Skew struct {
 	HBVersion string `json:"hb_version"`
 	// (a) measured drift
-	TestsReplayed int             `json:"tests_replayed"`
-	TestsEqual    int             `json:"tests_equal"`
-	TestsSkipped  int             `json:"tests_skipped"`
-	Drift         map[string]int  `json:"drift"` // "font#index|category" -> number of differing upstream tests
-	DriftExamples []DriftExample  `json:"drift_examples"`
+	TestsReplayed int            `json:"tests_replayed"`
+	TestsEqual    int            `json:"tests_equal"`
+	TestsSkipped  int            `json:"tests_skipped"`
+	Drift         map[string]int `json:"drift"` // "font#index|category" -> number of differing upstream tests
+	DriftExamples []DriftExample `json:"drift_examples"`
 	// (b) Unicode skew: code point -> bitmask (1 gc, 2 ccc, 4 script, 8 mirroring, 16 decomposition)
 	UniRunes []rune  `json:"uni_runes"`
 	UniBits  []uint8 `json:"uni_bits"`
